@@ -121,6 +121,25 @@ def _judge(err, steps, model, expect_in, v, where, detail):
             v.append(violation("trained_before_rejecting", dict(detail, optimiser_steps=steps), **where))
         if err is not None and hasattr(model, "labels_"):
             v.append(violation("fitted_attributes_left_after_failed_fit", detail, **where))
+        probe = detail.get("_probe_X") if isinstance(detail, dict) else None
+        if err is not None and probe is not None and hasattr(model, "predict"):
+            # behavioural reading of 'left without a fitted model': the refused estimator cannot predict / score / be printed
+            for call in ("predict", "score"):
+                try:
+                    with warnings.catch_warnings(), contextlib.redirect_stdout(io.StringIO()):
+                        warnings.simplefilter("ignore")
+                        getattr(model, call)(probe)
+                    v.append(violation("refused_estimator_still_answers", {k_: x_ for k_, x_ in detail.items() if k_ != "_probe_X"} | {"call": call}, **where))
+                except Exception:  # noqa
+                    pass
+            if type(model).__name__ == "Kauri":
+                try:
+                    from gemclus.tree import print_kauri_tree
+                    with contextlib.redirect_stdout(io.StringIO()):
+                        print_kauri_tree(model)
+                    v.append(violation("refused_estimator_still_answers", {"call": "print_kauri_tree"}, **where))
+                except Exception:  # noqa
+                    pass
 
 
 def param_case(case):
@@ -143,7 +162,9 @@ def param_case(case):
         _judge(e, 0, type("X", (), {})(), expect_in, v, where, {"stage": "constructor"})
         return {"v": v, "nt": [case], "stats": {"evals": 1}}
     err, steps = _fit_probe(model, X)
-    _judge(err, steps, model, expect_in, v, where, {"stage": "fit"})
+    _judge(err, steps, model, expect_in, v, where, {"stage": "fit", "_probe_X": X})
+    for x_ in v:
+        x_["detail"] = x_["detail"].replace("_probe_X", "probe")[:600]
     return {"v": v, "nt": [case], "out": [(name, param, expect_in, type(err).__name__ if err else "ok")], "stats": {"evals": 1},
             "sample": {"estimator": name, "param": param, "value": repr(val), "expected": "accepted" if expect_in else "rejected"}}
 
@@ -186,7 +207,7 @@ def combo_case(case):
         valid = 2 * msl <= mss
         model = M.make("Kauri", min_samples_leaf=msl, min_samples_split=mss)
         err, steps = _fit_probe(model, X)
-        _judge(err, steps, model, valid, v, dict(target="Kauri", param="min_samples_leaf/min_samples_split", expect="in" if valid else "out"), {"leaf": msl, "split": mss})
+        _judge(err, steps, model, valid, v, dict(target="Kauri", param="min_samples_leaf/min_samples_split", expect="in" if valid else "out"), {"leaf": msl, "split": mss, "_probe_X": X})
     elif kind == "data":
         name, tag = arg
         bad = {"nan": lambda: np.where(np.eye(N, D) > 0, np.nan, X), "inf": lambda: np.where(np.eye(N, D) > 0, np.inf, X),
@@ -195,7 +216,7 @@ def combo_case(case):
                "fewer_samples_than_clusters": lambda: X[:2], "complex": lambda: X.astype(complex) + 1j}[tag]()
         model = M.make(name) if name != "Kauri" else M.make("Kauri", min_samples_leaf=3, min_samples_split=6)
         err, steps = _fit_probe(model, bad)
-        _judge(err, steps, model, False, v, dict(target=name, param="X", value=tag, expect="out"), {"data": tag})
+        _judge(err, steps, model, False, v, dict(target=name, param="X", value=tag, expect="out"), {"data": tag, "_probe_X": X})
     elif kind == "before_fit":
         name, call = arg
         model = M.make(name)
